@@ -13,22 +13,22 @@ attribute [local irreducible] Goml.GoCompile.vn Goml.GoCompile.gid Goml.GoCompil
 
 theorem stepB {env : Env} {file : AFile} {G : List String} {P : Prog} {F : GFile} (hl : Link env file G P F) (n : Nat) :
     SimB env P F (n + 1) := by
-  intro b ps r hb hsig vs gvs w gw hargs hw
+  intro b ps r hb hsig η vs gvs w gw hargs hw
   obtain ⟨v, w', gv, gw', hs, hc, h3, h4, h5⟩ := builtin_call hl.rt hb hsig hargs hw
   rw [Sem.apply]; simp only [hl.builtinSrc b hb, hs]
-  exact ⟨gv, gw', hc, h3, h4, h5⟩
+  exact ⟨η, η.le_refl, gv, gw', hc, h3, h4, h5⟩
 
 theorem sim0 {env : Env} {file : AFile} {G : List String} {P : Prog} {F : GFile} : SimAt env file G P F 0 := by
   refine ⟨?_, ?_, ?_, ?_, ?_, ?_, ?_, ?_, ?_⟩
-  · intro g _ _ vs gvs w gw _ _; rw [Sem.apply]; trivial
-  · intro b ps r _ _ vs gvs w gw _ _; rw [Sem.apply]; trivial
-  · intro c Γ K ρ w gρ gw Bad _ _ _ _ _ _ _; rw [Sem.eval]; trivial
-  · intro m st e Γ K ρ w gρ gw Bad _ _ _ _ _ _ _ _; rw [Sem.eval]; trivial
-  · intro m st c Γ K ρ w gρ gw Bad _ _ _ _ _ _ _ _; rw [Sem.eval]; trivial
-  · intro cv st c b Γ K ρ w gρ gw Bad _ _ _ _ _ _ _ _ _ _ _; rw [Sem.eval]; trivial
-  · intro m st arms d ty Γ K ρ w gρ gw Bad x en i vs gv _ _ _ _ _ _ _ _ _ _ _ _; rw [Sem.evalArms.eq_def]; trivial
-  · intro m st arms d ty sty Γ K ρ w gρ gw Bad v gv _ _ _ _ _ _ _ _ _ _ _ _; rw [Sem.evalArms.eq_def]; trivial
-  · intro m st arms d ty Γ K ρ w gρ gw Bad _ _ _ _ _ _ _ _; rw [Sem.evalArms.eq_def]; trivial
+  · intro g _ _ η vs gvs w gw _ _; rw [Sem.apply]; trivial
+  · intro b ps r _ _ η vs gvs w gw _ _; rw [Sem.apply]; trivial
+  · intro c η Γ K ρ w gρ gw Bad _ _ _ _ _ _ _; rw [Sem.eval]; trivial
+  · intro m st e η Γ K ρ w gρ gw Bad _ _ _ _ _ _ _ _; rw [Sem.eval]; trivial
+  · intro m st c η Γ K ρ w gρ gw Bad _ _ _ _ _ _ _ _; rw [Sem.eval]; trivial
+  · intro cv st c b η Γ K ρ w gρ gw Bad _ _ _ _ _ _ _ _ _ _ _; rw [Sem.eval]; trivial
+  · intro m st arms d ty η Γ K ρ w gρ gw Bad x en i vs gv _ _ _ _ _ _ _ _ _ _ _ _; rw [Sem.evalArms.eq_def]; trivial
+  · intro m st arms d ty sty η Γ K ρ w gρ gw Bad v gv _ _ _ _ _ _ _ _ _ _ _ _; rw [Sem.evalArms.eq_def]; trivial
+  · intro m st arms d ty η Γ K ρ w gρ gw Bad _ _ _ _ _ _ _ _; rw [Sem.evalArms.eq_def]; trivial
 
 /-! ### tail expressions -/
 
@@ -62,19 +62,41 @@ theorem not_missing {env : Env} {file : AFile} {G : List String} {Γ : Ctx} {f :
   | prim p t => simp [callOK] at h
   | tag i t => simp [callOK] at h
 
+/-- the same for a call of the fragment, ordinary or of a reference builtin -/
+theorem not_missing' {env : Env} {file : AFile} {G : List String} {Γ : Ctx} {f : Imm} {args : List Imm} {ty : Ty}
+    (h : (callOK env file G Γ f args ty || refCallOK env file Γ f args ty) = true) : isMissingCall f ty = false := by
+  rw [Bool.or_eq_true] at h
+  rcases h with h | h
+  · exact not_missing h
+  · cases f with
+    | var name fty =>
+      simp only [refCallOK, Bool.and_eq_true, beq_iff_eq] at h
+      obtain ⟨⟨_, hrn⟩, hcase⟩ := h
+      by_cases h1 : name = "ref"
+      · subst h1; simp [isMissingCall, callee, hrn]
+      · rw [if_neg h1] at hcase
+        by_cases h2 : name = "ref_get"
+        · subst h2; simp [isMissingCall, callee, hrn]
+        · rw [if_neg h2] at hcase
+          by_cases h3 : name = "ref_set"
+          · subst h3; simp [isMissingCall, callee, hrn]
+          · rw [if_neg h3] at hcase; cases hcase
+    | prim p t => simp [refCallOK] at h
+    | tag i t => simp [refCallOK] at h
+
 theorem gid_ne_blank {Bad : List String} {gρ : GEnv} {t : String} (hk : gid t ∈ keys gρ)
     (hgood : ∀ y, y ∈ keys gρ → ¬ y ∈ Bad) (hus : "_" ∈ Bad) : gid t ≠ "_" :=
   fun e => hgood _ hk (e ▸ hus)
 
 /-- the simple forms in tail position: nothing / a call statement / an assignment -/
-theorem tail_simple {env : Env} {file : AFile} {G : List String} {P : Prog} {F : GFile} {n : Nat}
+theorem tail_simple {env : Env} {η : Hp} {file : AFile} {G : List String} {P : Prog} {F : GFile} {n : Nat}
     (hv : SimV env file G P F (n + 1)) (m : Mode) (st : St) (c : CExpr) (Γ : Ctx) (K : KCtx) (ρ : Sem.Env) (w : World)
     (gρ : GEnv) (gw : GWorld) (Bad : List String) (hctl : isCtl c = false)
-    (hfrag : fragC env file G Γ K c = true) (hrel : EnvRel env Γ ρ gρ) (hkrel : KRel K ρ) (hw : WRel w gw)
+    (hfrag : fragC env file G Γ K c = true) (hrel : EnvRel env η Γ ρ gρ) (hkrel : KRel K ρ) (hw : WRel env η w gw)
     (hgood : ∀ y, y ∈ keys gρ → ¬ y ∈ Bad) (htgt : TgtOK m Γ gρ c.annTy) (hus : "_" ∈ Bad)
-    (hcal : ∀ x, x ∈ calleesC c → vn x ∈ Bad) :
-    Concl env F (compileSimple env m c) m gρ gw c.annTy (Sem.eval (n + 1) P ρ w c.toExpr) := by
-  have hV := hv c Γ K ρ w gρ gw Bad hctl hfrag hrel hkrel hw hgood hcal
+    (hcal : ∀ x, x ∈ calleesC c → x ∈ Bad) :
+    Concl env η F (compileSimple env m c) m gρ gw c.annTy (Sem.eval (n + 1) P ρ w c.toExpr) := by
+  have hV := hv c η Γ K ρ w gρ gw Bad hctl hfrag hrel hkrel hw hgood hcal
   cases m with
   | assign t =>
     obtain ⟨htk, _⟩ := htgt
@@ -83,19 +105,19 @@ theorem tail_simple {env : Env} {file : AFile} {G : List String} {P : Prog} {F :
       cases c <;> simp [isCtl] at hctl <;> (try (simp [fragC] at hfrag; done)) <;> simp only [compileSimple]
       rename_i f args ty
       simp only [fragC] at hfrag
-      simp [not_missing hfrag]
+      simp [not_missing' hfrag]
     rw [hshape]
     revert hV
     cases hres : Sem.eval (n + 1) P ρ w c.toExpr with
     | ok v w' =>
-      rintro ⟨gv, gw', he, h3, h4, h5, _⟩
-      exact ⟨[], gv, gw', block_single (stmt_assign hne he) (fun _ _ _ h => by injection h with h; injection h with _ h; exact h.symm),
+      rintro ⟨η1, hle1, gv, gw', he, h3, h4, h5, _⟩
+      exact ⟨η1, hle1, [], gv, gw', block_single (stmt_assign hne he) (fun _ _ _ h => by injection h with h; injection h with _ h; exact h.symm),
         h3, h4, h5, fun y hy => by cases hy⟩
     | fail fl w' =>
       cases fl with
       | panic k =>
-        rintro ⟨gw', he, h5, _⟩
-        exact ⟨gw', block_single (stmt_assign_fail he) (fun _ _ _ h => by cases h), h5⟩
+        rintro ⟨η1, hle1, gw', he, h5, _⟩
+        exact ⟨η1, hle1, gw', block_single (stmt_assign_fail he) (fun _ _ _ h => by cases h), h5⟩
       | fuel => intro _; trivial
       | stuck s => intro _; trivial
   | effect =>
@@ -108,13 +130,14 @@ theorem tail_simple {env : Env} {file : AFile} {G : List String} {P : Prog} {F :
       revert hV
       cases hres : Sem.eval (n + 1) P ρ w c.toExpr with
       | ok v w' =>
-        rintro ⟨gv, gw', he, h3, h4, h5, hpw⟩
-        have := hpw hp; subst this
-        exact ⟨[], gv, gw, block_nil, h3, h4, hw, fun y hy => by cases hy⟩
+        rintro ⟨η1, hle1, gv, gw', he, h3, h4, h5, hpw⟩
+        obtain ⟨hw1, hη1⟩ := hpw hp
+        subst hw1; subst hη1
+        exact ⟨η1, hle1, [], gv, gw, block_nil, h3, h4, hw, fun y hy => by cases hy⟩
       | fail fl w' =>
         cases fl with
         | panic k =>
-          rintro ⟨gw', he, h5, hmp⟩
+          rintro ⟨η1, hle1, gw', he, h5, hmp⟩
           -- only a binary operator is pure and can panic; none has type unit
           cases c <;> simp [pureC] at hp <;> simp [mayPanicC] at hmp
           rename_i op l r ty
@@ -128,14 +151,14 @@ theorem tail_simple {env : Env} {file : AFile} {G : List String} {P : Prog} {F :
         revert hV
         cases hres : Sem.eval (n + 1) P ρ w (CExpr.call f args ty).toExpr with
         | ok v w' =>
-          rintro ⟨gv, gw', he, h3, h4, h5, _⟩
-          exact ⟨[], gv, gw', block_single (stmt_expr he) (fun _ _ _ h => by injection h with h; injection h with _ h; exact h.symm),
+          rintro ⟨η1, hle1, gv, gw', he, h3, h4, h5, _⟩
+          exact ⟨η1, hle1, [], gv, gw', block_single (stmt_expr he) (fun _ _ _ h => by injection h with h; injection h with _ h; exact h.symm),
             h3, h4, h5, fun y hy => by cases hy⟩
         | fail fl w' =>
           cases fl with
           | panic k =>
-            rintro ⟨gw', he, h5, _⟩
-            exact ⟨gw', block_single (stmt_expr_fail he) (fun _ _ _ h => by cases h), h5⟩
+            rintro ⟨η1, hle1, gw', he, h5, _⟩
+            exact ⟨η1, hle1, gw', block_single (stmt_expr_fail he) (fun _ _ _ h => by cases h), h5⟩
           | fuel => intro _; trivial
           | stuck s => intro _; trivial
       | ite c t e ty => simp [isCtl] at hctl
@@ -156,31 +179,31 @@ theorem tail_simple {env : Env} {file : AFile} {G : List String} {P : Prog} {F :
 /-! ### `if` -/
 
 /-- a statement that runs `S` as a nested block inherits the conclusion about `S` -/
-theorem concl_of_nest {F : GFile} {S : List GStmt} {m : Mode} {gρ : GEnv} {gw : GWorld} {ty : Ty} {r : Res Val}
-    {s : GStmt} (h : Concl env F S m gρ gw ty r) (hs : ∀ r0, NestS F gρ gw S r0 → StmtS F gρ gw s r0) :
-    Concl env F [s] m gρ gw ty r := by
+theorem concl_of_nest {env : Env} {η : Hp} {F : GFile} {S : List GStmt} {m : Mode} {gρ : GEnv} {gw : GWorld} {ty : Ty} {r : Res Val}
+    {s : GStmt} (h : Concl env η F S m gρ gw ty r) (hs : ∀ r0, NestS F gρ gw S r0 → StmtS F gρ gw s r0) :
+    Concl env η F [s] m gρ gw ty r := by
   cases r with
   | ok v w' =>
-    obtain ⟨D, gv, gw', hb, h3, h4, h5, _⟩ := h
+    obtain ⟨η1, hle1, D, gv, gw', hb, h3, h4, h5, _⟩ := h
     have hn := hs _ (nest_of_block hb)
     simp only [popTo, pop_append D _ gρ (length_post m gρ gv)] at hn
-    exact ⟨[], gv, gw', block_cons hn block_nil, h3, h4, h5, fun y hy => by cases hy⟩
+    exact ⟨η1, hle1, [], gv, gw', block_cons hn block_nil, h3, h4, h5, fun y hy => by cases hy⟩
   | fail fl w' =>
     cases fl with
     | panic k =>
-      obtain ⟨gw', hb, h5⟩ := h
+      obtain ⟨η1, hle1, gw', hb, h5⟩ := h
       have hn := hs _ (nest_of_block hb)
-      exact ⟨gw', block_cons_fail hn, h5⟩
+      exact ⟨η1, hle1, gw', block_cons_fail hn, h5⟩
     | fuel => trivial
     | stuck s => trivial
 
-theorem tail_ite {env : Env} {file : AFile} {G : List String} {P : Prog} {F : GFile} {n : Nat}
+theorem tail_ite {env : Env} {η : Hp} {file : AFile} {G : List String} {P : Prog} {F : GFile} {n : Nat}
     (hl : Link env file G P F) (ha : SimA env file G P F n) (m : Mode) (st : St) (c : Imm) (t e : AExpr) (ty : Ty) (Γ : Ctx) (K : KCtx) (ρ : Sem.Env)
     (w : World) (gρ : GEnv) (gw : GWorld) (Bad : List String)
-    (hfrag : fragC env file G Γ K (.ite c t e ty) = true) (hrel : EnvRel env Γ ρ gρ) (hkrel : KRel K ρ) (hw : WRel w gw)
+    (hfrag : fragC env file G Γ K (.ite c t e ty) = true) (hrel : EnvRel env η Γ ρ gρ) (hkrel : KRel K ρ) (hw : WRel env η w gw)
     (hinv : GInv Bad (compileTail env m st (.ite c t e ty)).1 gρ) (htgt : TgtOK m Γ gρ ty) (hus : "_" ∈ Bad)
-    (hcal : ∀ x, x ∈ calleesC (.ite c t e ty) → vn x ∈ Bad) :
-    Concl env F (compileTail env m st (.ite c t e ty)).1 m gρ gw ty (Sem.eval (n + 1) P ρ w (CExpr.ite c t e ty).toExpr) := by
+    (hcal : ∀ x, x ∈ calleesC (.ite c t e ty) → x ∈ Bad) :
+    Concl env η F (compileTail env m st (.ite c t e ty)).1 m gρ gw ty (Sem.eval (n + 1) P ρ w (CExpr.ite c t e ty).toExpr) := by
   simp only [fragC, Bool.and_eq_true] at hfrag
   obtain ⟨⟨⟨⟨⟨hc, hcb⟩, hft⟩, hfe⟩, htt⟩, hte⟩ := hfrag
   have htt' := scalarEq_eq htt
@@ -201,7 +224,7 @@ theorem tail_ite {env : Env} {file : AFile} {G : List String} {P : Prog} {F : GF
       simp only
       have hinv' : GInv Bad (compileA env m (st.check (okImm env c)) t).1 gρ :=
         hinv.sub (by rw [ndDecls_ite]; exact List.sublist_append_left _ _)
-      have := ha m _ t Γ K ρ w gρ gw Bad hft hrel hkrel hw hinv' (htt' ▸ htgt) hus
+      have := ha m _ t η Γ K ρ w gρ gw Bad hft hrel hkrel hw hinv' (htt' ▸ htgt) hus
         (fun x hx => hcal x (by simp [calleesC, hx]))
       rw [htt'] at this
       exact concl_of_nest this (fun r0 hn => stmt_ite_true (hg gw) hn)
@@ -209,7 +232,7 @@ theorem tail_ite {env : Env} {file : AFile} {G : List String} {P : Prog} {F : GF
       simp only
       have hinv' : GInv Bad (compileA env m (compileA env m (st.check (okImm env c)) t).2 e).1 gρ :=
         hinv.sub (by rw [ndDecls_ite]; exact List.sublist_append_right _ _)
-      have := ha m _ e Γ K ρ w gρ gw Bad hfe hrel hkrel hw hinv' (hte' ▸ htgt) hus
+      have := ha m _ e η Γ K ρ w gρ gw Bad hfe hrel hkrel hw hinv' (hte' ▸ htgt) hus
         (fun x hx => hcal x (by simp [calleesC, hx]))
       rw [hte'] at this
       exact concl_of_nest this (fun r0 hn => stmt_ite_false (hg gw) hn)
@@ -230,13 +253,13 @@ theorem tail_while_decls (x : String) (body : List GStmt) (m : Mode) :
       (match m with | .effect => [] | .assign tgt => [GStmt.assign (gid tgt) unitE])) = x :: ndDecls body := by
   cases m <;> simp [ndDecls, ndDeclsOf]
 
-theorem tail_while {env : Env} {file : AFile} {G : List String} {P : Prog} {F : GFile} {n : Nat}
+theorem tail_while {env : Env} {η : Hp} {file : AFile} {G : List String} {P : Prog} {F : GFile} {n : Nat}
     (hL : SimL env file G P F (n + 1)) (m : Mode) (st : St) (c b : AExpr) (ty : Ty) (Γ : Ctx) (K : KCtx) (ρ : Sem.Env)
     (w : World) (gρ : GEnv) (gw : GWorld) (Bad : List String)
-    (hfrag : fragC env file G Γ K (.while c b ty) = true) (hrel : EnvRel env Γ ρ gρ) (hkrel : KRel K ρ) (hw : WRel w gw)
+    (hfrag : fragC env file G Γ K (.while c b ty) = true) (hrel : EnvRel env η Γ ρ gρ) (hkrel : KRel K ρ) (hw : WRel env η w gw)
     (hinv : GInv Bad (compileTail env m st (.while c b ty)).1 gρ) (htgt : TgtOK m Γ gρ ty) (hus : "_" ∈ Bad)
-    (hcal : ∀ x, x ∈ calleesC (.while c b ty) → vn x ∈ Bad) :
-    Concl env F (compileTail env m st (.while c b ty)).1 m gρ gw ty (Sem.eval (n + 1) P ρ w (CExpr.while c b ty).toExpr) := by
+    (hcal : ∀ x, x ∈ calleesC (.while c b ty) → x ∈ Bad) :
+    Concl env η F (compileTail env m st (.while c b ty)).1 m gρ gw ty (Sem.eval (n + 1) P ρ w (CExpr.while c b ty).toExpr) := by
   simp only [fragC, Bool.and_eq_true] at hfrag
   obtain ⟨⟨⟨⟨hfc, hcb⟩, hfb⟩, hbu⟩, htu⟩ := hfrag
   have hcb' := scalarEq_eq hcb
@@ -259,7 +282,7 @@ theorem tail_while {env : Env} {file : AFile} {G : List String} {P : Prog} {F : 
   have hne : ∀ x tx, lookupTy Γ x = some tx → vn x ≠ gid cv := fun x tx hx e => by
     obtain ⟨_, _, _, h2, _, _⟩ := hrel.1 x tx hx
     exact hcvfresh (e ▸ key_of_lookup_some h2)
-  have hrel1 : EnvRel env Γ ρ env1 := hrel.go_agree (fun x tx hx => lookup_cons_ne _ _ (fun e => hne x tx hx e.symm))
+  have hrel1 : EnvRel env η Γ ρ env1 := hrel.go_agree (fun x tx hx => lookup_cons_ne _ _ (fun e => hne x tx hx e.symm))
   have hinv1 : GInv Bad (loopBody env cv st' c b) env1 := by
     refine ⟨(List.nodup_cons.mp hnd).2, fun y hy hk => ?_, fun y hy => hinv.goodD y (by rw [hdecl]; exact List.mem_cons_of_mem _ hy), fun y hk => ?_⟩
     · simp only [env1, Goml.Dce.keys_cons, List.mem_cons] at hk
@@ -271,16 +294,16 @@ theorem tail_while {env : Env} {file : AFile} {G : List String} {P : Prog} {F : 
       · exact hcvgood
       · exact hinv.goodK y hk
   have htgt1 : TgtOK (.assign cv) Γ env1 .bool := ⟨by simp [env1], hne⟩
-  have hloop := hL cv st' c b Γ K ρ w env1 gw Bad hfc hcb' hfb hbu' hrel1 hkrel hw hinv1 htgt1 hus
+  have hloop := hL cv st' c b η Γ K ρ w env1 gw Bad hfc hcb' hfb hbu' hrel1 hkrel hw hinv1 htgt1 hus
     (fun x hx => hcal x (by simpa [calleesC] using hx))
   revert hloop
   cases hres : Sem.eval (n + 1) P ρ w (.while c.toExpr b.toExpr) with
   | ok v w' =>
-    rintro ⟨rfl, gw', hlp, h5⟩
+    rintro ⟨rfl, η1, hle1, gw', hlp, h5⟩
     rw [show updateG env1 (gid cv) (.bool false) = (gid cv, .bool false) :: gρ from update_cons_self _ _ _ _] at hlp
     cases m with
     | effect =>
-      refine ⟨[(gid cv, .bool false)], .unit, gw', ?_, rfl, trivial, h5, fun y hy => ?_⟩
+      refine ⟨η1, hle1, [(gid cv, .bool false)], .unit, gw', ?_, rfl, trivial, h5, fun y hy => ?_⟩
       · exact block_cons hdecl1 (block_cons hlp block_nil)
       · simp only [Goml.Dce.keys_cons, Goml.Dce.keys_nil, List.mem_singleton] at hy
         subst hy; rw [hdecl]; exact List.mem_cons_self
@@ -294,33 +317,33 @@ theorem tail_while {env : Env} {file : AFile} {G : List String} {P : Prog} {F : 
           (.ok (updateG ((gid cv, .bool false) :: gρ) (gid t) .unit, .normal) gw') := stmt_assign hne' ev_unitv
       rw [show ((gid cv, GVal.bool false) :: gρ) = [(gid cv, GVal.bool false)] ++ gρ from rfl,
         update_append_left hnecv] at hasg
-      refine ⟨[(gid cv, .bool false)], .unit, gw', ?_, rfl, trivial, h5, fun y hy => ?_⟩
+      refine ⟨η1, hle1, [(gid cv, .bool false)], .unit, gw', ?_, rfl, trivial, h5, fun y hy => ?_⟩
       · exact block_cons hdecl1 (block_cons hlp (block_cons hasg block_nil))
       · simp only [Goml.Dce.keys_cons, Goml.Dce.keys_nil, List.mem_singleton] at hy
         subst hy; rw [hdecl]; exact List.mem_cons_self
   | fail fl w' =>
     cases fl with
     | panic k =>
-      rintro ⟨gw', hlp, h5⟩
-      exact ⟨gw', block_cons hdecl1 (block_cons_fail hlp), h5⟩
+      rintro ⟨η1, hle1, gw', hlp, h5⟩
+      exact ⟨η1, hle1, gw', block_cons hdecl1 (block_cons_fail hlp), h5⟩
     | fuel => intro _; trivial
     | stuck s => intro _; trivial
 
 /-! ### `match` -/
 
 /-- a `switch` statement inherits the conclusion about its selected clause -/
-theorem concl_of_sw {env : Env} {F : GFile} {s : GStmt} {m : Mode} {gρ : GEnv} {gw : GWorld} {ty : Ty} {res : Res Val}
-    {run : GRes (GEnv × Sig) → Prop} (h : ConclSw env run m gρ ty res) (hs : ∀ r, run r → StmtS F gρ gw s r) :
-    Concl env F [s] m gρ gw ty res := by
+theorem concl_of_sw {env : Env} {η : Hp} {F : GFile} {s : GStmt} {m : Mode} {gρ : GEnv} {gw : GWorld} {ty : Ty} {res : Res Val}
+    {run : GRes (GEnv × Sig) → Prop} (h : ConclSw env η run m gρ ty res) (hs : ∀ r, run r → StmtS F gρ gw s r) :
+    Concl env η F [s] m gρ gw ty res := by
   cases res with
   | ok v w' =>
-    obtain ⟨gv, gw', hr, h3, h4, h5⟩ := h
-    exact ⟨[], gv, gw', block_cons (hs _ hr) block_nil, h3, h4, h5, fun y hy => by cases hy⟩
+    obtain ⟨η1, hle1, gv, gw', hr, h3, h4, h5⟩ := h
+    exact ⟨η1, hle1, [], gv, gw', block_cons (hs _ hr) block_nil, h3, h4, h5, fun y hy => by cases hy⟩
   | fail fl w' =>
     cases fl with
     | panic k =>
-      obtain ⟨gw', hr, h5⟩ := h
-      exact ⟨gw', block_cons_fail (hs _ hr), h5⟩
+      obtain ⟨η1, hle1, gw', hr, h5⟩ := h
+      exact ⟨η1, hle1, gw', block_cons_fail (hs _ hr), h5⟩
     | fuel => trivial
     | stuck s => trivial
 
@@ -334,42 +357,42 @@ theorem post_cons_ne {m : Mode} {b : String} (sv : GVal) (gρ : GEnv) (gv : GVal
     rw [hb]; rfl
 
 /-- a type switch inherits the conclusion about its selected clause; the binding is popped -/
-theorem concl_of_tsw {env : Env} {F : GFile} {b : String} {e : GExpr} {cs : List GTCase} {d : Option (List GStmt)} {sv : GVal}
+theorem concl_of_tsw {env : Env} {η : Hp} {F : GFile} {b : String} {e : GExpr} {cs : List GTCase} {d : Option (List GStmt)} {sv : GVal}
     {m : Mode} {gρ : GEnv} {gw : GWorld} {ty : Ty} {res : Res Val}
-    (h : ConclSw env (TSwS F ((b, sv) :: gρ) gw sv cs d) m ((b, sv) :: gρ) ty res) (hb : b ≠ "_")
+    (h : ConclSw env η (TSwS F ((b, sv) :: gρ) gw sv cs d) m ((b, sv) :: gρ) ty res) (hb : b ≠ "_")
     (he : EvS F gρ gw e (.ok sv gw)) (hbt : ∀ t, m = .assign t → b ≠ gid t) :
-    Concl env F [.tswitch (some b) e cs d] m gρ gw ty res := by
+    Concl env η F [.tswitch (some b) e cs d] m gρ gw ty res := by
   cases res with
   | ok v w' =>
-    obtain ⟨gv, gw', hr, h3, h4, h5⟩ := h
+    obtain ⟨η1, hle1, gv, gw', hr, h3, h4, h5⟩ := h
     have hst := stmt_tswitch hb he hr
     rw [post_cons_ne sv gρ gv hbt] at hst
     have hdrop : ((b, sv) :: post m gρ gv).drop (((b, sv) :: post m gρ gv).length - gρ.length) = post m gρ gv := by
       have : ((b, sv) :: post m gρ gv).length - gρ.length = 1 := by simp [length_post]
       rw [this]; rfl
     simp only [popTo, hdrop] at hst
-    exact ⟨[], gv, gw', block_cons hst block_nil, h3, h4, h5, fun y hy => by cases hy⟩
+    exact ⟨η1, hle1, [], gv, gw', block_cons hst block_nil, h3, h4, h5, fun y hy => by cases hy⟩
   | fail fl w' =>
     cases fl with
     | panic k =>
-      obtain ⟨gw', hr, h5⟩ := h
-      exact ⟨gw', block_cons_fail (stmt_tswitch hb he hr), h5⟩
+      obtain ⟨η1, hle1, gw', hr, h5⟩ := h
+      exact ⟨η1, hle1, gw', block_cons_fail (stmt_tswitch hb he hr), h5⟩
     | fuel => trivial
     | stuck s => trivial
 
-theorem tail_match {env : Env} {file : AFile} {G : List String} {P : Prog} {F : GFile} {n : Nat}
+theorem tail_match {env : Env} {η : Hp} {file : AFile} {G : List String} {P : Prog} {F : GFile} {n : Nat}
     (hl : Link env file G P F) (hme : SimME env file G P F n) (hmv : SimMV env file G P F n) (hmu : SimMU env file G P F n)
     (m : Mode) (st : St) (s : Imm) (arms : List AArm) (d : ADflt) (ty : Ty) (Γ : Ctx) (K : KCtx) (ρ : Sem.Env)
     (w : World) (gρ : GEnv) (gw : GWorld) (Bad : List String)
-    (hfrag : fragC env file G Γ K (.matchE s arms d ty) = true) (hrel : EnvRel env Γ ρ gρ) (hkrel : KRel K ρ) (hw : WRel w gw)
+    (hfrag : fragC env file G Γ K (.matchE s arms d ty) = true) (hrel : EnvRel env η Γ ρ gρ) (hkrel : KRel K ρ) (hw : WRel env η w gw)
     (hinv : GInv Bad (compileTail env m st (.matchE s arms d ty)).1 gρ) (htgt : TgtOK m Γ gρ ty) (hus : "_" ∈ Bad)
-    (hcal : ∀ x, x ∈ calleesC (.matchE s arms d ty) → vn x ∈ Bad) :
-    Concl env F (compileTail env m st (.matchE s arms d ty)).1 m gρ gw ty
+    (hcal : ∀ x, x ∈ calleesC (.matchE s arms d ty) → x ∈ Bad) :
+    Concl env η F (compileTail env m st (.matchE s arms d ty)).1 m gρ gw ty
       (Sem.eval (n + 1) P ρ w (CExpr.matchE s arms d ty).toExpr) := by
   simp only [fragC, Bool.and_eq_true] at hfrag
   obtain ⟨⟨hs, hflat⟩, hcase⟩ := hfrag
   obtain ⟨v, gv, hsv, hgs, h3, h4⟩ := imm_both P hl.ty hs hrel
-  have hcal' : ∀ c, c ∈ calleesArms arms ++ calleesD d → vn c ∈ Bad := fun c hc => hcal c (by simpa [calleesC] using hc)
+  have hcal' : ∀ c, c ∈ calleesArms arms ++ calleesD d → c ∈ Bad := fun c hc => hcal c (by simpa [calleesC] using hc)
   simp only [CExpr.toExpr]
   rw [Sem.eval]
   rcases sem_imm_any hsv (w := w) n with h1 | h1
@@ -402,7 +425,7 @@ theorem tail_match {env : Env} {file : AFile} {G : List String} {P : Prog} {F : 
         rename_i en' i vs
         have hen' : en' = en := h4.1
         subst hen'
-        have h4'' : HasTy env (.enumV en' i vs) (.enum en') := by simp only [HasTy]; exact ⟨trivial, h4.2⟩
+        have h4'' : HasTy env η (.enumV en' i vs) (.enum en') := by simp only [HasTy]; exact ⟨trivial, h4.2⟩
         -- the statement
         have hshape : (compileTail env m st (.matchE (.var x (.enum en')) arms d ty)).1 =
             [.tswitch (some (rn x)) (.var (vn x) (goTy (.enum en')))
@@ -414,7 +437,7 @@ theorem tail_match {env : Env} {file : AFile} {G : List String} {P : Prog} {F : 
         rw [← hvn] at hinv ⊢
         have hxk : vn x ∈ keys gρ := key_of_lookup_some hlg
         have hxb : vn x ≠ "_" := fun e => hinv.goodK _ hxk (e ▸ hus)
-        have hrelb : EnvRel env Γ ρ ((vn x, gv) :: gρ) :=
+        have hrelb : EnvRel env η Γ ρ ((vn x, gv) :: gρ) :=
           hrel.go_agree (fun y ty' hy => lookup_rebind hlg (vn y))
         have hinvb : GInvN Bad (armDecls (compileArms env m st1 arms).1 ++ optDecls (compileDflt env m (compileArms env m st1 arms).2 d).1)
             ((vn x, gv) :: gρ) := by
@@ -430,7 +453,7 @@ theorem tail_match {env : Env} {file : AFile} {G : List String} {P : Prog} {F : 
           | assign t => exact ⟨List.mem_cons_of_mem _ htgt.1, htgt.2⟩
         have hbt : ∀ t, m = .assign t → vn x ≠ gid t := fun t ht => by
           subst ht; exact htgt.2 x _ hlt
-        have hR := hme m st1 arms d ty Γ K ρ w ((vn x, gv) :: gρ) gw Bad x en' i vs gv hfa hfd hrelb hkrel hw hlk h4'' h3
+        have hR := hme m st1 arms d ty η Γ K ρ w ((vn x, gv) :: gρ) gw Bad x en' i vs gv hfa hfd hrelb hkrel hw hlk h4'' h3
           hinvb htgtb hus hcal'
         exact concl_of_tsw hR hxb (ev_var_some hlg) hbt
   | unit =>
@@ -439,7 +462,7 @@ theorem tail_match {env : Env} {file : AFile} {G : List String} {P : Prog} {F : 
     have hshape : compileTail env m st (.matchE s arms d ty) = unitStmts env m st arms d := by
       simp only [compileTail, hsty, matchKind, unitStmts]
     rw [hshape] at hinv ⊢
-    exact hmu m st arms d ty Γ K ρ w gρ gw Bad (by simpa [fragUnit] using hcase) hrel hkrel hw hinv htgt hus hcal'
+    exact hmu m st arms d ty η Γ K ρ w gρ gw Bad (by simpa [fragUnit] using hcase) hrel hkrel hw hinv htgt hus hcal'
   | bool =>
     rw [hsty] at hcase h4; simp only [Bool.and_eq_true] at hcase
     obtain ⟨⟨hsw, hfa⟩, hfd⟩ := hcase
@@ -454,7 +477,7 @@ theorem tail_match {env : Env} {file : AFile} {G : List String} {P : Prog} {F : 
         (compileDflt env m (compileArms env m st1 arms).2 d).1]) gρ := hinv
       rw [ndDecls_switch, armDecls_valueCases] at h
       cases hd : (compileDflt env m (compileArms env m st1 arms).2 d).1 <;> simpa [optDecls, hd] using h
-    have hR := hmv m st1 arms d ty .bool Γ K ρ w gρ gw Bad v gv hsw hfa hfd hrel hkrel hw h4 h3 hinv' htgt hus hcal'
+    have hR := hmv m st1 arms d ty .bool η Γ K ρ w gρ gw Bad v gv hsw hfa hfd hrel hkrel hw h4 h3 hinv' htgt hus hcal'
     exact concl_of_sw hR (fun r hr => stmt_switch (hgs gw) hr)
   | int bits sg =>
     rw [hsty] at hcase h4; simp only [Bool.and_eq_true] at hcase
@@ -470,7 +493,7 @@ theorem tail_match {env : Env} {file : AFile} {G : List String} {P : Prog} {F : 
         (compileDflt env m (compileArms env m st1 arms).2 d).1]) gρ := hinv
       rw [ndDecls_switch, armDecls_valueCases] at h
       cases hd : (compileDflt env m (compileArms env m st1 arms).2 d).1 <;> simpa [optDecls, hd] using h
-    have hR := hmv m st1 arms d ty (.int bits sg) Γ K ρ w gρ gw Bad v gv hsw hfa hfd hrel hkrel hw h4 h3 hinv' htgt hus hcal'
+    have hR := hmv m st1 arms d ty (.int bits sg) η Γ K ρ w gρ gw Bad v gv hsw hfa hfd hrel hkrel hw h4 h3 hinv' htgt hus hcal'
     exact concl_of_sw hR (fun r hr => stmt_switch (hgs gw) hr)
   | string =>
     rw [hsty] at hcase h4; simp only [Bool.and_eq_true] at hcase
@@ -486,7 +509,7 @@ theorem tail_match {env : Env} {file : AFile} {G : List String} {P : Prog} {F : 
         (compileDflt env m (compileArms env m st1 arms).2 d).1]) gρ := hinv
       rw [ndDecls_switch, armDecls_valueCases] at h
       cases hd : (compileDflt env m (compileArms env m st1 arms).2 d).1 <;> simpa [optDecls, hd] using h
-    have hR := hmv m st1 arms d ty .string Γ K ρ w gρ gw Bad v gv hsw hfa hfd hrel hkrel hw h4 h3 hinv' htgt hus hcal'
+    have hR := hmv m st1 arms d ty .string η Γ K ρ w gρ gw Bad v gv hsw hfa hfd hrel hkrel hw h4 h3 hinv' htgt hus hcal'
     exact concl_of_sw hR (fun r hr => stmt_switch (hgs gw) hr)
   | float b => rw [hsty] at hcase; simp [switchTy] at hcase
   | tuple ts => rw [hsty] at hcase; simp [switchTy] at hcase
@@ -505,7 +528,7 @@ theorem stepC {env : Env} {file : AFile} {G : List String} {P : Prog} {F : GFile
     (hv : SimV env file G P F (n + 1)) (ha : SimA env file G P F n) (hL : SimL env file G P F (n + 1))
     (hme : SimME env file G P F n) (hmv : SimMV env file G P F n) (hmu : SimMU env file G P F n) :
     SimC env file G P F (n + 1) := by
-  intro m st c Γ K ρ w gρ gw Bad hfrag hrel hkrel hw hinv htgt hus hcal
+  intro m st c η Γ K ρ w gρ gw Bad hfrag hrel hkrel hw hinv htgt hus hcal
   by_cases hctl : isCtl c = false
   · rw [compileTail_simple env m st hctl] at hinv ⊢
     exact tail_simple hv m st c Γ K ρ w gρ gw Bad hctl hfrag hrel hkrel hw hinv.goodK htgt hus hcal
